@@ -210,17 +210,31 @@ func (c *SessionCache) LookupNonExpired(id string) (*SessionEntry, bool) {
 	return entry, true
 }
 
+// commandKey renders the command_map key {tag,addr,<cmd>} ({addr,<cmd>} without a tag).
+// The parts are joined with commas, so a comma (or the escape character itself) inside a
+// part is escaped: otherwise tag "a" + address "b" and no tag + address "a,b" share a key,
+// and a session cached for one server is offered to another. Parts without a comma or a
+// backslash -- every sinful string and command number -- render exactly as before.
+func commandKey(tag, addr, command string) string {
+	if tag != "" {
+		return fmt.Sprintf("{%s,%s,<%s>}", escapeKeyPart(tag), escapeKeyPart(addr), escapeKeyPart(command))
+	}
+	return fmt.Sprintf("{%s,<%s>}", escapeKeyPart(addr), escapeKeyPart(command))
+}
+
+func escapeKeyPart(s string) string {
+	if !strings.ContainsAny(s, ",\\") {
+		return s
+	}
+	return strings.NewReplacer("\\", "\\\\", ",", "\\,").Replace(s)
+}
+
 // LookupByCommand finds a session for a specific command to an address
 func (c *SessionCache) LookupByCommand(tag, addr, command string) (*SessionEntry, bool) {
 	c.mu.RLock()
 	defer c.mu.RUnlock()
 
-	var key string
-	if tag != "" {
-		key = fmt.Sprintf("{%s,%s,<%s>}", tag, addr, command)
-	} else {
-		key = fmt.Sprintf("{%s,<%s>}", addr, command)
-	}
+	key := commandKey(tag, addr, command)
 
 	sessionID, ok := c.commandMap[key]
 	if !ok {
@@ -244,14 +258,7 @@ func (c *SessionCache) MapCommand(tag, addr, command, sessionID string) {
 	c.mu.Lock()
 	defer c.mu.Unlock()
 
-	var key string
-	if tag != "" {
-		key = fmt.Sprintf("{%s,%s,<%s>}", tag, addr, command)
-	} else {
-		key = fmt.Sprintf("{%s,<%s>}", addr, command)
-	}
-
-	c.commandMap[key] = sessionID
+	c.commandMap[commandKey(tag, addr, command)] = sessionID
 }
 
 // Invalidate removes a session from the cache
